@@ -1,5 +1,6 @@
 import OpcuaVerif.Generated.C33Sites
 import OpcuaVerif.Proofs.C33
+import OpcuaVerif.Model.C33Filter
 
 /-!
 C33 — every potential panic site that the translator finds on the modelled node-management paths
@@ -22,6 +23,46 @@ def classified : List ((String × String × String × Nat) × Site) := [
 /-- **Regenerated obligation**: the source has no potential panic site on the modelled paths that
 is not classified (and thereby covered by `addNode_total` / `addReference_total`). -/
 theorem all_sites_classified : ∀ s ∈ panicSites, s ∈ classified.map (·.1) := by
+  decide
+
+/-! ### guards, not only sites (regenerated from the source on every run) -/
+
+/-- **Regenerated obligation**: the node-management handlers answer with the status codes the
+model has, in the model's order (a guard that is removed, added or moved changes this list). -/
+theorem status_order_as_modelled :
+    statusOrder_add_nodes = ["BadTooManyOperations", "BadNothingToDo", "BadNothingToDo"] ∧
+    statusOrder_add_references = ["BadTooManyOperations", "BadNothingToDo", "BadNothingToDo"] ∧
+    statusOrder_add_node = ["BadUserAccessDenied", "BadNodeIdRejected", "BadNodeClassInvalid", "BadNodeIdRejected",
+      "BadNodeIdExists", "BadBrowseNameInvalid", "BadBrowseNameDuplicated", "BadTypeDefinitionInvalid",
+      "BadParentNodeIdInvalid", "Good", "BadNodeAttributesInvalid", "BadReferenceTypeIdInvalid"] ∧
+    statusOrder_add_reference = ["BadUserAccessDenied", "BadServerUriInvalid", "BadReferenceLocalOnly",
+      "BadSourceNodeIdInvalid", "BadTargetNodeIdInvalid", "BadNodeClassInvalid", "BadReferenceNotAllowed",
+      "BadNodeClassInvalid", "Good", "BadDuplicateReferenceNotAllowed", "BadReferenceTypeIdInvalid"] := by
+  decide
+
+/-- operand count `evaluate` demands for an operator (by its source name) -/
+def minFor (op : String) : Nat := (minOperandsTable.lookup op).getD minOperandsDefault
+
+/-- source names of the operators each model operator stands for -/
+def fopSourceNames : FOp → List String
+  | .eq => ["Equals"] | .isNull => ["IsNull"] | .gt => ["GreaterThan"] | .lt => ["LessThan"]
+  | .gte => ["GreaterThanOrEqual"] | .lte => ["LessThanOrEqual"] | .not => ["Not"] | .between => ["Between"]
+  | .inList => ["InList"] | .and => ["And"] | .or => ["Or"]
+  | .unsupported => ["RelatedTo", "InView", "OfType"]
+
+/-- **Regenerated obligation**: the model's `minOperands` is the table written in `evaluate`. -/
+theorem min_operands_as_modelled (op : FOp) : ∀ n ∈ fopSourceNames op, minFor n = minOperands op := by
+  cases op <;> decide
+
+/-- **Regenerated obligation**: every operator function reads only operands whose index is below the
+count `evaluate` demands for every operator dispatched to it; the only non-constant operand index is
+`operands[1..]` of `in_list` (needs one operand, two are demanded); `value_of` has no potential panic
+site left. -/
+theorem operand_indices_guarded :
+    (∀ d ∈ operatorDispatch, ∀ m ∈ operatorMaxIndex, m.1 = d.2 → m.2 < minFor d.1) ∧
+    (∀ d ∈ operatorDispatch, (operatorMaxIndex.lookup d.2).isSome = true) ∧
+    (∀ x ∈ operatorOtherIndex, x = ("in_list", "1..")) ∧
+    valueOfSites = [] := by
   decide
 
 end OpcuaVerif.C33
